@@ -42,6 +42,9 @@ InitState ==
     cols |-> [t \in Tab |-> <<>>], tsid |-> [t \in Tab |-> 0], tlen |-> [t \in Tab |-> 0],
     reg |-> [s \in Sid |-> {}], fpv |-> [o \in Obj |-> NoMemo], fpt |-> [t \in Tab |-> NoMemo],
     cmap |-> [t \in Tab |-> <<>>],
+    stale |-> [s \in Sid |-> 0],   \* ghost: how many vectors registered on this (still used) storage have died: the
+                           \* registry's dead weak references.  They never count - but histories with 0, 1, 2 ...
+                           \* dead sharers are different histories of the tracker and must all be explored
     uown |-> {},           \* ghost: vectors the program created as standalone objects (never a table's)
     everobs |-> {},        \* ghost: <<object, family>> pairs: a read-only operation of that family has been applied to the
                            \* object before (keeps apart the histories in which an implementation might have cached something)
@@ -73,6 +76,7 @@ AllocOne(S) == (IF CleanFree(S) = {} THEN {} ELSE {SetMin(CleanFree(S))})
 (* ------------------------------------------------------------------ normalisation
    after an action: objects that are no longer referenced die; dead things leave the
    registry (weak references), their slots are reset, unused storage is released.        *)
+Min2(a, b) == IF a < b THEN a ELSE b
 Settle(S0) ==
   LET lt   == S0.live \cap Tab
       lv   == {o \in Obj : o \in S0.live /\ (S0.held[o] \/ \E t \in lt : o \in RangeOf(S0.cols[t]))}
@@ -92,6 +96,7 @@ Settle(S0) ==
         !.tsid = [t \in Tab |-> IF t \in L THEN S0.tsid[t] ELSE 0],
         !.tlen = [t \in Tab |-> IF t \in L THEN S0.tlen[t] ELSE 0],
         !.reg = [s \in Sid |-> S0.reg[s] \cap L],
+        !.stale = [s \in Sid |-> IF s \in used THEN Min2(3, S0.stale[s] + Cardinality(S0.reg[s] \ L)) ELSE 0],
         !.fpv = [o \in Obj |-> IF o \in L THEN S0.fpv[o] ELSE NoMemo],
         !.fpt = [t \in Tab |-> IF t \in L THEN S0.fpt[t] ELSE NoMemo],
         !.cmap = [t \in Tab |-> IF t \in L THEN S0.cmap[t] ELSE <<>>],
